@@ -94,8 +94,15 @@ static int history_op(ZSTD_CCtx* c, int op, int isStatic) {
 
 /* optimal-parser subjects: many text-like inputs x the three opt strategies, after histories that leave different
  * bytes in the workspace, and on caller-provided memory pre-filled with different patterns */
+/* a heap whose blocks arrive filled with a chosen byte: what a context finds in freshly allocated memory is the allocator's business, the output may not depend on it */
+static u8 g_dirtyFill;
+static void* dirty_alloc(void* o, size_t n) { (void)o; void* p = malloc(n); if (!p) return p;
+    if (g_dirtyFill == 1) { uint32_t* w = (uint32_t*)p; for (size_t i = 0; i < n / 4; i++) w[i] = 2 + (uint32_t)((i * 2654435761u) >> 12) % 3000; }      /* looks like a recycled table: small plausible indices */
+    else memset(p, g_dirtyFill, n);
+    return p; }
+static void dirty_free(void* o, void* p) { (void)o; free(p); }
 static void body_opt(void) {
-    int seed = vx_choose((int)vx_opt_int("--ninputs", 40)), lv = vx_choose(3), strat = lv == 0 ? 16 : lv == 1 ? 18 : 19, prior = vx_choose(6), size = vx_choose(2), useCDict = vx_choose(2);
+    int seed = vx_choose((int)vx_opt_int("--ninputs", 40)), lv = vx_choose(3), strat = lv == 0 ? 16 : lv == 1 ? 18 : 19, prior = vx_choose(8), size = vx_choose(2), useCDict = vx_choose(2);
     size_t n = size ? 20000 : 6000; u8* src = g_srcPage; uint32_t s = 1000 + (uint32_t)seed;
     {   /* text-like: short vocabulary words, a separator or digit, and about one noise byte in eight positions: many short isolated matches */
         static const char* W[] = {"lorem", "ipsum", "dolor", "sit", "amet", "sed", "do", "of", "and", "the", "block", "frame", "x", "yy", "zzz", "offset", "literal"};
@@ -103,6 +110,7 @@ static void body_opt(void) {
             if (r & 7) { const char* w = W[(r >> 3) % 17]; for (; *w && o < n; w++) src[o++] = (u8)*w; if (o < n) src[o++] = ((r >> 12) & 1) ? ' ' : (u8)('0' + ((r >> 13) % 10)); }
             else src[o++] = (u8)(r >> 14); } }
     vx_label("opt input%d level%d prior%d n=%zu cdict%d", seed, strat, prior, n, useCDict);
+    if (prior >= 6 && (seed % 2)) { vx_obs_u64(62); return; }      /* priors 6, 7: heap context whose allocator returns memory that looks like a recycled index table / is filled with 0xA5 (half of the inputs) */
     if (useCDict && (seed % 4 || prior == 3 || prior == 4)) { vx_obs_u64(61); return; }     /* the digested-dictionary variant on a quarter of the inputs, heap contexts */
     /* a digested dictionary made of the words of the input (the context copies or attaches its tables, by source size and strategy) */
     static u8 dict[2048]; { size_t o = 0; uint32_t t = 5; static const char* W2[] = {"lorem ", "ipsum1 ", "dolor ", "block7 ", "frame ", "offset ", "literal0 ", "and the "}; while (o + 12 < sizeof dict) { t = t * 1103515245u + 12345u; const char* w = W2[(t >> 16) & 7]; while (*w) dict[o++] = (u8)*w++; } while (o < sizeof dict) dict[o++] = ' '; }
@@ -119,6 +127,7 @@ static void body_opt(void) {
         if (ZSTD_isError(o) || o != n || memcmp(g_pool, src, n)) { vx_fail("fresh-context output%s does not round trip (%zu bytes for %zu)", useCDict ? " (digested dictionary)" : "", rn, n); ZSTD_freeCDict(cd); return; } }
     ZSTD_CCtx* c;
     if (prior == 3 || prior == 4) { memset(g_static, prior == 3 ? 0x3F : 0xFF, g_staticSize); c = ZSTD_initStaticCCtx(g_static, g_staticSize); }
+    else if (prior >= 6) { ZSTD_customMem cm = { dirty_alloc, dirty_free, NULL }; g_dirtyFill = prior == 6 ? 1 : 0xA5; c = ZSTD_createCCtx_advanced(cm); }
     else { c = ZSTD_createCCtx();
         if (prior == 1) { ZSTD_CCtx_setParameter(c, ZSTD_c_compressionLevel, 3); ZSTD_compress2(c, g_hdst, ZSTD_compressBound(BIG), g_hsrc, 600000); }
         if (prior == 2) { ZSTD_CCtx_setParameter(c, ZSTD_c_compressionLevel, 19); ZSTD_CCtx_setParameter(c, ZSTD_c_windowLog, 17); ZSTD_compress2(c, g_hdst, 1u << 20, g_hsrc + 7, 45000); }
@@ -133,7 +142,7 @@ static void body_opt(void) {
     ZSTD_CCtx_setParameter(c, ZSTD_c_compressionLevel, strat); if (!useCDict) ZSTD_CCtx_setParameter(c, ZSTD_c_windowLog, 15); else ZSTD_CCtx_refCDict(c, cd);
     size_t cn = ZSTD_compress2(c, g_dst, ZSTD_compressBound(n), src, n);
     if (ZSTD_isError(cn)) vx_fail("compression fails after prior use %d although it succeeds on a fresh context", prior);
-    else if (cn != rn || memcmp(g_dst, g_ref, rn)) vx_fail("optimal-parser output%s depends on %s", useCDict ? " (digested dictionary)" : "", prior == 3 || prior == 4 ? "the initial content of the caller-provided memory" : "what the context compressed before");
+    else if (cn != rn || memcmp(g_dst, g_ref, rn)) vx_fail("optimal-parser output%s depends on %s", useCDict ? " (digested dictionary)" : "", prior == 3 || prior == 4 ? "the initial content of the caller-provided memory" : prior >= 6 ? "the content of the memory the allocator returns" : "what the context compressed before");
     if (prior != 3 && prior != 4) ZSTD_freeCCtx(c);
     ZSTD_freeCDict(cd);
     vx_obs_u64(vx_hash(g_ref, rn)); if (prior) vx_nontrivial(); vx_stat_add("histories_run", 1);
